@@ -318,3 +318,82 @@ claim("C20", "other",
       "public function incl. the raising configuration.",
       "Trusted: matplotlib, pandas, IPython.display; the alias analysis' tables; the AST matcher.",
       "frame/ownership obligations by may-alias analysis + structural routing obligations + bounded inspection of rendered artists", "DESIGN.md 5/C20")
+
+
+# ---------------------------------------------------------------------------------------------------------------------------------------
+# session 4: functions brought under contract since the texts above were written (appended to the level text; technique replaced where the deciding method changed)
+S4 = {
+ "C01": ("Also proved (session 4): diffuse_field_hvsr_processing - sqrt(S(P_ns + P_ew) / S(P_vt)) at the requested centre frequencies from the three densities of the same kept "
+         "recordings with the published FFT length, one operator call on the two rows (callees prepare_fft_settings, prepare_records_with_inconsistent_dt, check_nyquist_frequency, "
+         "_rpds_single_component through their contracts, stages opaque). Bounded additions: a common factor between 1e-9 and 1e6 on all three components leaves every curve of every "
+         "processing path unchanged; RotDpp and azimuthal azimuth lists with repeated values, directions equal modulo 180 and any order.", None, None),
+ "C03": ("Also proved (session 4): HvsrCurve._check_input - a fresh double copy when no value is NaN or negative, ValueError otherwise ('finite non-negative amplitudes').", None, None),
+ "C05": ("Also proved (session 4): the statistic accessors of HvsrTraditional - peak_frequencies / peak_amplitudes are the selections of the peak vectors by the *peak* mask; "
+         "mean_fn_*, std_fn_* hand exactly those selections and the distribution asked for to the estimators; cov_fn is the ddof=1 covariance of the two selections (of their "
+         "logarithms for both lognormal spellings), both selected by the same mask; mean_curve is the accepted row itself when exactly one window is accepted and otherwise the "
+         "column-wise mean estimator over the rows selected by the *window* mask; std_curve likewise and ValueError iff fewer than two windows are accepted; nth_std_fn_* and "
+         "nth_std_curve combine the mean and the standard deviation of the same quantity and distribution (estimators as uninterpreted functions of the selection they receive). "
+         "_nanmean_weighted / _nanstd_weighted with axis=0 on the accepted rows: column-wise arithmetic / geometric mean and n-1 sample standard deviation (column sums named); "
+         "_nth_std_factory on curves. Remaining bounded: that a[mask] is the sub-sequence where mask is True (A-NP-MASK), np.cov, the NaN-carrying uses.", None,
+         "contract-based deductive verification of the estimators and of every statistic accessor (mask routing) + native evaluation of the estimator contracts over mask histories"),
+ "C06": ("Also proved (session 4): the entry point on a traditional object (one search in the requested range, one run of the iteration, its count returned, no other object touched); "
+         "HvsrAzimuthal.update_peaks_bounded (every azimuth searched with the caller's range and filters, the range recorded on the parent, the filters dictionary copied) - the model the "
+         "azimuthal entry proof used for it is now a discharged contract.", None, None),
+ "C07": ("Also proved (session 4): _read_minishark and _read_saf around their regular expressions (matches as opaque strings with identities, int()/float() of them uninterpreted): "
+         "MiniShark columns vt, ns, ew each divided by gain and conversion factor; SAF components from the columns the header names; time step 1/fs; orientation = the value given "
+         "(an explicit 0 included), else NORTH_ROT / NORTH_ROT + 90 by the channel rule, else 0; ValueError iff the row count differs from the header (files with surplus rows overrun "
+         "the buffer: native only) or a list of files is given. _read_gcf and _read_mseed (one / three files): exactly three traces, handed to _arrange_traces in file order, "
+         "(ns, ew, vt) to the constructor, orientation default 0 (obspy opaque).", None,
+         "contract proofs of the text readers around their regular expressions, of the obspy wrappers, the count check and the trace-to-component assignment + structural obligations + bounded grammar-based native files"),
+ "C08": ("Also proved (session 4): HvsrDiffuseField.mean_curve (the curve itself) and mean_curve_peak (highest local maximum in the range *given*), HvsrAzimuthal.mean_curve_peak, the "
+         "first-azimuth properties (frequency, _search_range_in_hz, _find_peaks_kwargs) and HvsrAzimuthal.update_peaks_bounded (fan-out). Bounded addition: a full-range diffuse-field query "
+         "after a bounded update.", None, None),
+ "C09": ("Function contracts the frame argument rests on are discharged here too (session 4): TimeSeries.__init__ / from_timeseries / SeismicRecording3C.from_seismic_recording_3c own "
+         "fresh sample storage; TimeSeries.window writes its own samples in place; detrend / butterworth_filter rebind to new arrays. Bounded addition: recordings of mixed time steps "
+         "under the three policies (dropped and kept recordings untouched, metadata included).", None,
+         "frame/ownership obligations by may-alias analysis of the AST + function contracts of the copy / in-place primitives + bounded native snapshot checks"),
+ "C10": ("Also proved (session 4): TimeSeries.detrend / window / butterworth_filter (which scipy routine gets which arguments; window multiplies by the Tukey taper of the series' own "
+         "length IN PLACE, the others rebind to new arrays; (None, fh) low-pass, (fl, None) high-pass, both band-pass, neither nothing) - the models the wrapper proofs used; the "
+         "SeismicRecording3C wrappers also for an object whose metadata already carries the entry of an identical earlier call.", None, None),
+ "C11": ("Also proved (session 4): every statistic accessor of HvsrAzimuthal - the per-azimuth selections in list order (peak vectors through the peak masks for the fn statistics, "
+         "column c of the amplitude rows through the window masks for the curves), the weights of _compute_statistical_weights, the distribution asked for, denominator 'cheng'; cov_fn "
+         "with aweights; +-n values; _flatten_list is the block concatenation with the prefix-sum offsets of the weights (why values and weights are aligned). The weighted estimators are "
+         "uninterpreted functions of (distribution, per-azimuth selections, weights) there; their formulas are the statistics.py contracts. Bounded additions: azimuth lists with 0 and 180 / "
+         "repeated values, exact zeros in rejected windows.", None,
+         "contract-based deductive verification of the weight construction, the weighted estimators and every azimuthal accessor (selection / weight routing) + native evaluation over mask histories"),
+ "C12": ("Proved (session 4) on the executed bodies, np.savetxt / np.loadtxt / json and all text opaque: write_hvsr_object_to_file for traditional, azimuthal and diffuse-field objects - "
+         "which numbers reach np.savetxt in which column (frequencies; curves in order, azimuth by azimuth at the prefix-sum offsets; the object's own mean / std curve for distribution_mc "
+         "through the accessor contracts) and which masks reach the JSON header; the object is not written. read_hvsr_object_from_file for traditional, diffuse-field and azimuthal files - "
+         "columns -> curves (azimuthal: one group per stored mask list, azimuth from the first title of the group, object shapes), the search with the stored range and filters runs before "
+         "the stored masks are installed unchanged, the remaining header entries become meta. Defect F-19 (neighbouring equal azimuths merged on reading) found and repaired. Bounded "
+         "additions: high-to-low frequency vectors.", None,
+         "contract-based deductive verification of writer and reader (external I/O opaque, column offsets as ghost prefix sums) + structural obligations + bounded native round trips"),
+ "C14": ("Also proved (session 4): montecarlo_fn for the four generator / spatial combinations - one row of draws per generator (rng.normal opaque, call counter as ghost state), the "
+         "space conversion (exp / log / none), _statistics on the realisations in the spatial space with the caller's weights (through an extensionality instance of its contract), mean "
+         "returned in linear space, realisations returned in linear space; NotImplementedError for other names.", None, None),
+ "C15": ("Also proved (session 4): read_settings_object_from_file for 12 stored discriminators (a default-constructed object of the class named, which then loads the same file; "
+         "NotImplementedError otherwise), Settings.save (json.dump receives attr_dict), Settings.load (every stored entry, nulls and nested dictionaries included, becomes the attribute "
+         "of that name; others untouched). Bounded addition: nearly geometric centre-frequency vectors.", None,
+         "structural contract obligations on constructor/serialisation ASTs + contract proofs of the dispatching reader, save and load + bounded native round-trip and aliasing checks"),
+ "C17": ("Also proved (session 4): _rpds_single_component as repaired for F-18 (every window scaled by its own taper mean square and sample count: the Welch average also when the final "
+         "window is one sample short); rpsd (each component's density from that component's windows, optional single operator call on three rows, frequency axes) and "
+         "diffuse_field_hvsr_processing; psd_preprocess in 5 configurations (orient, filter, [constant detrend, taper], [response removal on ns/ew/vt, filter], [derivative on ns/ew/vt], "
+         "split, detrend each window; ghost component contents).", None, None),
+ "C18": ("Also proved (session 4): SeismicRecording3C.from_seismic_recording_3c (ns -> ns, ew -> ew, vt -> vt through from_timeseries, fresh storage), save (json.dump receives _to_dict()) "
+         "and load (_from_dict of what json.load returns). Bounded addition: a second save of the same recording after an in-place taper.", None, None),
+ "C19": ("Also proved (session 4): _process_hvsr on its executed body with the stages opaque - the file <stem>.csv receives PROCESS(PREPROCESS(READ([[fname]]), own copy), own copy) with the "
+         "caller's two distribution options; the settings objects handed in never reach a stage.", None,
+         "contract proof of the worker's data flow + structural contract obligations (history independence by construction) + bounded runs of the real CLI"),
+ "C20": ("Also proved (session 4), Axes / pandas as recorders and the accessors opaque: _plot_mean_hvsr_curve, _plot_nth_std_hvsr_curve, _plot_peak_mean_hvsr_curve, "
+         "_plot_nth_std_frequency_range draw the accessor the statement names for the distribution asked for; plot_single_panel_hvsr_curves calls every helper once with the option that "
+         "belongs to it (distribution_mc for curves and the mean-curve peak, distribution_fn for the fn band); summarize_hvsr_statistics tabulates the object's fn statistics, the period "
+         "row holding the reciprocal median and the same log-standard deviation. Bounded addition: contour markers with a bounded search range.", None,
+         "frame/ownership obligations by may-alias analysis + contract proofs of the drawing helpers, the single-panel driver and the summary table + structural routing obligations + bounded inspection of rendered artists"),
+ "C02": ("Bounded addition (session 4): band-limited frequency axes whose first sample is a genuine spectral sample.", None, None),
+ "C04": ("Bounded addition (session 4): azimuth lists in any order and with repeated values.", None, None),
+ "C13": ("Bounded additions (session 4): windows of unequal length (shortest first), attached objects containing windows without a peak.", None, None),
+ "C16": ("Bounded addition (session 4): fn_std exactly 0.", None, None),
+}
+for _pid, (_t, _n, _tech) in S4.items():
+    cat, text, note, tech, ref = CLAIMS[_pid]
+    CLAIMS[_pid] = (cat, text + " " + _t, note if _n is None else note + " " + _n, tech if _tech is None else _tech, ref)
